@@ -53,11 +53,20 @@ def AttrV.isGraphy : AttrV → Bool
 def SharedAttr (w0 : World) (a : Nat) : Prop :=
   ∃ as, w0[a]? = some (.attr as) ∧ as.v.isGraphy = false
 
+/-- `i` is the `const_value` of a value of heap `w` -/
+def ConstTarget (w : World) (i : Nat) : Prop :=
+  ∃ (j : Nat) (vs : ValueS), w[j]? = some (Cell.val vs) ∧ vs.const = some i
+
+/-- the tensor of a new value is new or the tensor of a pre-existing value (tensors are shared) -/
+def ConstOk (w0 : World) (lo : Nat) : Option Nat → Prop
+  | none => True
+  | some c => lo ≤ c ∨ ConstTarget w0 c
+
 /-- the ownership pointers of a new cell stay inside the new part `[lo, hi)` of the heap; node
     inputs too unless outer-scope values are allowed -/
 def CellOk (w0 : World) (lo hi : Nat) (allow : Bool) : Cell → Prop
   | .val v => OptIn lo hi v.type ∧ OptIn lo hi v.shape ∧ In lo hi v.props ∧ In lo hi v.mstore ∧
-      OptIn lo hi v.graph ∧ OptIn lo hi v.producer
+      OptIn lo hi v.graph ∧ OptIn lo hi v.producer ∧ ConstOk w0 lo v.const
   | .node n => (∀ v ∈ n.outputs, In lo hi v) ∧ In lo hi n.props ∧ In lo hi n.mstore ∧
       OptIn lo hi n.graph ∧ (∀ ka ∈ n.attrs, In lo hi ka.2 ∨ SharedAttr w0 ka.2) ∧
       (allow = false → ∀ v, some v ∈ n.inputs → In lo hi v)
@@ -74,13 +83,14 @@ def CellOk (w0 : World) (lo hi : Nat) (allow : Bool) : Cell → Prop
   | .type _ => True
   | .shape _ => True
   | .dict _ => True
+  | .tensor _ => True
 
 theorem CellOk.mono {w0 lo hi hi' allow c} (h : CellOk w0 lo hi allow c) (hh : hi ≤ hi') :
     CellOk w0 lo hi' allow c := by
   cases c with
   | val v =>
-    obtain ⟨a, b, c, d, e, f⟩ := h
-    exact ⟨a.mono hh, b.mono hh, c.mono hh, d.mono hh, e.mono hh, f.mono hh⟩
+    obtain ⟨a, b, c, d, e, f, k⟩ := h
+    exact ⟨a.mono hh, b.mono hh, c.mono hh, d.mono hh, e.mono hh, f.mono hh, k⟩
   | node n =>
     obtain ⟨a, b, c, d, e, f⟩ := h
     refine ⟨fun v hv => (a v hv).mono hh, b.mono hh, c.mono hh, d.mono hh, ?_, fun ha v hv => (f ha v hv).mono hh⟩
@@ -112,6 +122,7 @@ theorem CellOk.mono {w0 lo hi hi' allow c} (h : CellOk w0 lo hi allow c) (hh : h
   | type _ => trivial
   | shape _ => trivial
   | dict _ => trivial
+  | tensor _ => trivial
 
 /-! ### the invariant of the cloner and a pointwise Hoare logic -/
 
@@ -405,6 +416,26 @@ theorem copyMeta_good {s : St} (o : Nat) (hI : Inv w0 allow s) :
   mbind (GoodAt.readDict hI) with ss s1 hI1 hl1 hq1
   exact GoodAt.allocNew hI1 (by trivial)
 
+/-- the tensor of a value the cloner reads is a legitimate tensor for a new value -/
+theorem constOk_of_read {s : St} {v : Nat} {vs : ValueS} (hI : Inv w0 allow s)
+    (h : s.w[v]? = some (.val vs)) : ConstOk w0 w0.length vs.const := by
+  rcases Nat.lt_or_ge v w0.length with hlt | hge
+  · obtain ⟨c0, hc0⟩ : ∃ c0, w0[v]? = some c0 := ⟨w0[v], List.getElem?_eq_getElem hlt⟩
+    obtain ⟨c, h1, h2⟩ := hI.old v c0 hc0
+    rw [h] at h1
+    cases h1
+    have := h2.1
+    cases c0 <;> simp [Cell.eraseUses] at this
+    next v0 =>
+      cases hc : vs.const with
+      | none => trivial
+      | some t =>
+        right
+        refine ⟨v, v0, hc0, ?_⟩
+        rw [← this.2.2.2.2.2.2.2.2.2.2.1]; exact hc
+  · obtain ⟨_, _, _, _, _, _, k⟩ := hI.cells v _ hge h
+    exact k
+
 theorem cloneOrGetValue_good {s : St} (v : Nat) (hI : Inv w0 allow s) :
     GoodAt w0 allow (cloneOrGetValue v) s (NewId w0) := by
   unfold cloneOrGetValue
@@ -415,6 +446,7 @@ theorem cloneOrGetValue_good {s : St} (v : Nat) (hI : Inv w0 allow s) :
   | none =>
     simp only
     mbind (GoodAt.readVal hI1) with vs s2 hI2 hl2 hq2
+    have hconst := constOk_of_read hI2 (by rw [hq2.1] at *; exact hq2.2)
     mbind (copyShape_good vs.shape hI2) with sh s3 hI3 hl3 hsh
     mbind (copyType_good vs.type hI3) with ty s4 hI4 hl4 hty
     mbind (copyProps_good vs.props hI4) with pr s5 hI5 hl5 hpr
@@ -423,7 +455,7 @@ theorem cloneOrGetValue_good {s : St} (v : Nat) (hI : Inv w0 allow s) :
         (.val { name := vs.name, doc := vs.doc, type := ty, shape := sh, const := vs.const,
                 props := pr, mstore := me }) :=
       ⟨OptIn.mono hty (by omega), OptIn.mono hsh (by omega), In.mono hpr (by omega),
-        In.mono hme (by omega), trivial, trivial⟩
+        In.mono hme (by omega), trivial, trivial, hconst⟩
     mbind (GoodAt.allocNew hI6 hc) with v' s7 hI7 hl7 hv'
     mbind (GoodAt.vmSet hI7 hv') with u s8 hI8 hl8 hq8
     exact GoodAt.pure hI8 (by rw [NewId, hq8]; exact hv')
@@ -534,7 +566,7 @@ theorem mkOutputs_good (n : Nat) (hn0 : w0.length ≤ n) :
     have hc : CellOk w0 w0.length (s2.w.length + 1) allow
         (.val { producer := some n, index := some i, props := pr, mstore := me }) :=
       ⟨trivial, trivial, In.mono hpr (by omega), In.mono hme (by omega), trivial,
-        ⟨hn0, by omega⟩⟩
+        ⟨hn0, by omega⟩, trivial⟩
     mbind (GoodAt.allocNew hI2 hc) with v s3 hI3 hl3 hv
     mbind (mkOutputs_good n hn0 k (i + 1) s3 hI3 (by omega)) with rest s4 hI4 hl4 hrest
     refine GoodAt.pure hI4 ?_
@@ -705,6 +737,7 @@ theorem cloneOutput_good (i o : Nat) {s : St} (hI : Inv w0 allow s) :
     GoodAt w0 allow (cloneOutput i o) s (NewId w0) := by
   unfold cloneOutput
   mbind (GoodAt.readVal hI) with os s1 hI1 hl1 hq1
+  have hconst := constOk_of_read hI1 (by rw [hq1.1] at *; exact hq1.2)
   mbind (copyShape_good os.shape hI1) with sh s2 hI2 hl2 hsh
   mbind (copyType_good os.type hI2) with ty s3 hI3 hl3 hty
   mbind (copyProps_good os.props hI3) with pr s4 hI4 hl4 hpr
@@ -713,7 +746,7 @@ theorem cloneOutput_good (i o : Nat) {s : St} (hI : Inv w0 allow s) :
       (.val { name := os.name, doc := os.doc, index := some i, type := ty, shape := sh,
               const := os.const, props := pr, mstore := me }) :=
     ⟨OptIn.mono hty (by omega), OptIn.mono hsh (by omega), In.mono hpr (by omega),
-      In.mono hme (by omega), trivial, trivial⟩
+      In.mono hme (by omega), trivial, trivial, hconst⟩
   mbind (GoodAt.allocNew hI5 hc) with o' s6 hI6 hl6 ho'
   mbind (GoodAt.vmSet hI6 ho') with u s7 hI7 hl7 hq7
   mbind (GoodAt.pendDiscard o hI7) with u2 s8 hI8 hl8 hq8
@@ -739,8 +772,8 @@ theorem setProducer_good (n v : Nat) {s : St} (hI : Inv w0 allow s)
   unfold setProducer
   mbind (GoodAt.readVal hI) with vs s1 hI1 hl1 hq1
   obtain ⟨rfl, hvs⟩ := hq1
-  obtain ⟨a, b, c, d, e, _⟩ := hI1.cells v _ hv hvs
-  exact (GoodAt.setNew hI1 hv (c := .val { vs with producer := some n }) ⟨a, b, c, d, e, hn⟩).mono
+  obtain ⟨a, b, c, d, e, _, k⟩ := hI1.cells v _ hv hvs
+  exact (GoodAt.setNew hI1 hv (c := .val { vs with producer := some n }) ⟨a, b, c, d, e, hn, k⟩).mono
     (fun _ _ _ _ _ => trivial)
 
 theorem allocNode_good {s : St} {c : NodeS} (hI : Inv w0 allow s)
